@@ -558,7 +558,16 @@ fn write_all_as_scientific(
         ..
     } = leading_zeroes
     {
-        write_decimal_digits(&declet[idx..], 1, written, &mut out)?;
+        let written_decimal_point = write_decimal_digits(&declet[idx..], 1, written, &mut out)?;
+
+        // If the first declet only had a single digit then the decimal point
+        // belongs between it and the next declet
+        if !written_decimal_point {
+            if let Some(declet) = declets.next() {
+                out.write_char('.')?;
+                write_declet(declet, written, &mut out)?;
+            }
+        }
     } else if let Some(declet) = declets.next() {
         write_content(
             str::from_utf8(&[declet[0], b'.', declet[1], declet[2]]).map_err(|_| fmt::Error)?,
